@@ -65,6 +65,11 @@ CHECKS = {
    "Valid texts (every type constructor to depth 4, every legal name class, keywords as field names, own-line comments in the listed positions, LF / CRLF and arbitrary inter-token white space) must parse to exactly the generating tree; mutants, truncations at every byte and soup are classified by an independent recursive-descent recogniser: definitely invalid texts must be rejected, valid ones must yield the recogniser's tree, texts only a lenient reading accepts are not judged; every accepted text must keep all its tokens (nothing ignored); no input may panic the parser.",
    "Trusted: the harness author's reading of the Varlink grammar in the recogniser (strict and lenient variants; the carve-outs are listed in DESIGN.md §3 C13); termination is only observed (a hang surfaces as the caller's time-out = inconclusive).",
    "§3 C13"),
+ "C14": ("exploration", "vcheck",
+   "round-trip property testing (proptest, shrinking) over generated interface trees built through the public constructors in owned and borrowed form and over the parser's own outputs: parse(render(x)) deep-equal x (own comparison incl. comments, and library ==), render fixpoint, and the GetInterfaceDescription exchange over a loop-back transport; known-finding lane with witness",
+   "Every generated description (all type constructors to depth 4, empty and non-empty lists, comments at interface / member / direct field / parameter / variant level) is rendered by zlink, parsed back and compared through the public accessors with the generating tree, re-rendered (must reproduce the text), and sent as an InterfaceDescription reply that the client side receives and parses to the same tree; the library's org.varlink.service description is included. Cases matching the known finding enum-variant-comment-render are attributed to it only if they pass once the variant comments are removed.",
+   "Trusted: the harness's own tree / conversion through public accessors (shared with C13). Legal comment text = no line break, no leading blank, no carriage return. Comments inside inline types are not generated (not listed by the statement).",
+   "§3 C14"),
  "C06": ("exploration", "vcheck",
    "model-based property testing of chains (proptest, shrinking): generated flag sequences + conforming server scripts + trailing frames + chunkings, stream polled by hand; exhaustive enumeration of all flag sequences up to length 4 x 3 script families x 3 trailing counts x 6 chunkings; oracle = owed-reply model + reference decode + transport poll counter",
    "Chains of 1..6 calls over {plain, oneway, more} are sent through Connection::chain_call/append/send against a scripted transport that then stays silent; the single transport write must equal the calls' reference encodings, the stream must yield exactly the owed replies (as the reference classifies each frame) and then None without polling the transport, and a later receive_reply must still find every trailing frame.",
